@@ -662,7 +662,10 @@ func (f *Frame) execNext(x *ssa.Next, st *State) {
 	u.assume(st, implies(ok, and(nz, sel(dom, k), not(sel(seen, k)))))
 	u.assume(st, implies(not(ok), implies(nz, T{fmt.Sprintf("(forall ((k!q %s)) (! (=> (select %s k!q) (select %s k!q)) :pattern ((select %s k!q))))", mk.ks, dom.S, seen.S, dom.S), SBool})))
 	st.heap[it.seenKey] = u.define("seen", ite(ok, sto(seen, k, tTrue), seen))
-	kv := u.keyVal(tup.At(1).Type(), k)
+	var kv *V
+	if tup.At(1).Type() != types.Typ[types.Invalid] {
+		kv = u.keyVal(tup.At(1).Type(), k)
+	}
 	var vv *V
 	if _, isInvalid := tup.At(2).Type().(*types.Basic); isInvalid && tup.At(2).Type() == types.Typ[types.Invalid] {
 		vv = &V{Typ: tup.At(2).Type(), T: intLit(0)}
